@@ -19,6 +19,7 @@ Structural clauses decided:
  R8  (also) every narrowing conversion in the database crate is proven or reviewed to fit
 """
 from ..engine import cfg as C
+from ..engine import paths as PA
 from ..engine import q as Q
 from ..engine import tables as TB
 from ..engine import terms as T
@@ -511,27 +512,44 @@ def rule_R10(ctx):
             sc = [x for x in T.walk(tt) if x[0] == "agg" and x[3] in ("High", "Medium", "Low", "Bad")]
             if not sc or sc[0][3] != "High":
                 continue
-            conds = Q.canon_conds(P, T.dom_conds(b, S, rb))
-            forms = {}
-            for c in conds:
-                if c[0] == "variant" and c[3] is True and T.strip(c[1])[0] in ("param", "deref", "ref"):
-                    who = T.strip(c[1])
-                    while who[0] in ("deref", "ref"):
-                        who = T.strip(who[1] if who[0] == "deref" else who[2])
-                    if who[0] == "param" and who[2] in ("self", "other"):
-                        forms[who[2]] = c[2]
-            arm = "%s/%s" % (forms.get("self", "*"), forms.get("other", "*"))
-            eqs = sorted("eq(%s)" % ",".join(sorted((_nf(c[2]), _nf(c[3])))) for c in conds if c[0] == "cmp" and c[1] == "Eq" and c[4] is True)
-            neg = [c for c in conds if c[0] == "cmp" and not (c[1] == "Eq" and c[4] is True)]
-            want = table.get(arm)
-            seen.add(arm)
-            if want is None:
-                ctx.fail("R10", "%s:%s" % (fn, arm), "an exact match (distance 0) is granted for the form pair %s under %s, which the specification table does not list" % (arm, eqs), ctx.loc(b, rb))
+            # every path to this exit is read on its own: several form pairs may share one arm body (`(Value(a), Value(b)) | (Guess(a), Guess(b)) => ..`)
+            trails, trunc = PA.enumerate_paths(b, 0, 3000, stop={rb})
+            trails = [tr for tr in trails if tr[-1] == rb]
+            if trunc or not trails:
+                ctx.cannot("R10", "%s:paths" % fn, "paths to an exact-match exit not enumerable", ctx.loc(b, rb))
                 continue
-            wn = sorted("eq(%s)" % ",".join(sorted(e[3:-1].split(",", 1) if e.count("(") == 1 else _split_top(e[3:-1]))) for e in want)
-            ctx.check(eqs == wn and not neg, "R10", "%s:%s" % (fn, arm), "distance 0 iff %s" % (" and ".join(wn) or "always"),
-                      "for (%s) the exact-match relation is %s%s, the signature semantics say %s: observations the signature does not describe are accepted as exact (or "
-                      "conforming ones rejected)" % (arm, eqs, " plus %d other comparisons" % len(neg) if neg else "", wn), ctx.loc(b, rb))
+            per_path = set()
+            deciding = {a for (a, s_) in C.transitive_controls(b, rb)}
+            for tr in trails:
+                conds = [c for c in (Q._norm_cmp(c) for c in PA.path_conds(P, b, S, tr)) if c[-1] in deciding]
+                conds = [(c[0], c[1], T.inline_combinators(P, c[2]), T.inline_combinators(P, c[3])) + tuple(c[4:]) if c[0] == "cmp" else c for c in conds]
+                forms = {}
+                for c in conds:
+                    if c[0] == "variant" and c[3] is True and T.strip(c[1])[0] in ("param", "deref", "ref"):
+                        who = T.strip(c[1])
+                        while who[0] in ("deref", "ref"):
+                            who = T.strip(who[1] if who[0] == "deref" else who[2])
+                        if who[0] == "param" and who[2] in ("self", "other"):
+                            forms[who[2]] = c[2]
+                arm = "%s/%s" % (forms.get("self", "*"), forms.get("other", "*"))
+                eqs = tuple(sorted("eq(%s)" % ",".join(sorted((_nf(c[2]), _nf(c[3])))) for c in conds if c[0] == "cmp" and c[1] == "Eq" and c[4] is True))
+                neg = len([c for c in conds if c[0] == "cmp" and not (c[1] == "Eq" and c[4] is True)])
+                per_path.add((arm, eqs, neg))
+            for (arm, eqs, neg) in sorted(per_path):
+                eqs = list(eqs)
+                want = table.get(arm)
+                seen.add(arm)
+                for wild in ("*/" + arm.split("/")[1], arm.split("/")[0] + "/*"):
+                    if want is None and wild in table:
+                        want = table[wild]
+                        seen.add(wild)
+                if want is None:
+                    ctx.fail("R10", "%s:%s" % (fn, arm), "an exact match (distance 0) is granted for the form pair %s under %s, which the specification table does not list" % (arm, eqs), ctx.loc(b, rb))
+                    continue
+                wn = sorted("eq(%s)" % ",".join(sorted(e[3:-1].split(",", 1) if e.count("(") == 1 else _split_top(e[3:-1]))) for e in want)
+                ctx.check(eqs == wn and not neg, "R10", "%s:%s" % (fn, arm), "distance 0 iff %s" % (" and ".join(wn) or "always"),
+                          "for (%s) the exact-match relation is %s%s, the signature semantics say %s: observations the signature does not describe are accepted as exact (or "
+                          "conforming ones rejected)" % (arm, eqs, " plus %d other comparisons" % neg if neg else "", wn), ctx.loc(b, rb))
         missing = sorted(set(table) - seen)
         ctx.check(not missing, "R10", fn + ":arms", "all %d form pairs of the table have an exact-match arm" % len(table),
                   "form pairs without an exact-match arm: %s" % missing, ctx.loc(b))
@@ -640,6 +658,14 @@ def rule_R9(ctx):
                                 r = TB._root_local(b, pl["l"])
                                 if r in idx_names:
                                     tested.add(idx_names[r])
+                # a loop that ends when an iterator over one of the lists is exhausted (`for h in observed.iter().skip(obs_idx)`)
+                be = T.branch_edges(b, S, x)
+                if be is not None and be[0][0] == "variant":
+                    src = T.strip(be[0][1])
+                    if src[0] == "call" and src[1].endswith("::next"):
+                        for y in T.walk(src):
+                            if y[0] == "param" and y[2] in ("observed", "signature"):
+                                tested.add({"observed": "obs_idx", "signature": "sig_idx"}[y[2]])
         kind = "walk" if tested == {"obs_idx", "sig_idx"} else "observed-rest" if tested == {"obs_idx"} else "signature-rest" if tested == {"sig_idx"} else "?"
         conds = Q.canon_conds(P, T.dom_conds(b, S, db_))
         opt_false = any(c[0] == "bool" and c[2] is False and any(x[0] == "field" and x[2] == "optional" for x in T.walk(c[1])) and
